@@ -421,7 +421,7 @@ func (m Mesh) scanPointPrimitives(start, size int, f func(i int, p Primitive)) {
 	for i := start; i < size; i++ {
 		f(i, &Point{
 			mesh:  &m,
-			index: i,
+			index: m.indices[i],
 		})
 	}
 }
